@@ -492,6 +492,10 @@ def body(chk):
     from checks import ingest, sched_worlds
     ingest.obligations(chk, 'C03')
     sched_worlds.run(chk, 'C03')
+    # the bracket counters act on what an attempt reports when it ends (failed? going to be retried?): reported correctly for
+    # every kind of failure (step, hook, World)
+    from checks import attempt_driver
+    attempt_driver.run(chk, 'C03')
 
 
 if __name__ == '__main__':
